@@ -42,15 +42,20 @@ MANIFEST = {
             "order dictates — first trigger (fireOnOneCallback success -> (value, index); fireOnOneErrback failure -> "
             "FirstError) else, when the last input is in, the (success, result) pairs in input order; consumeErrors leaves "
             "None for later callbacks; gatherResults gives the values in input order or the first failure; cancelling an "
-            "unfired DeferredList calls cancel() once on every input. race: fires at most once; a success result is the first "
-            "success's (index, value); a FailureGroup holds n delivered failures sorted by input index; the first success "
-            "cancels every other input exactly once and never the winner (also when a canceller raises — repaired code); "
-            "PARTIAL: that the race does fire with the first success unless cancelled before is proved up to excluding a "
-            "FailureGroup (counting invariant not proved), and race-cancel / all-fail liveness rest on the tie + oracle. "
+            "unfired DeferredList calls cancel() once on every input. race, complete: fires at most once; every input is "
+            "delivered to succeeded/failed at most once (counting invariant); a success result is the first success's "
+            "(index, value), and once a first success (i, v) exists the race HAS fired exactly once with (i, v) — a "
+            "FailureGroup is impossible then — unless it was cancelled before (CancelledError, only possible if the history "
+            "cancels the race); the first success cancels every other input exactly once and never the winner (also when a "
+            "canceller raises — repaired code); when all n inputs were delivered and none succeeded it HAS fired exactly "
+            "once with a FailureGroup of exactly n failures, the i-th being input i's (or CancelledError, cancelled before); "
+            "cancelling an unfired race calls cancel() on every input exactly once from the race's canceller (fired inputs "
+            "too, past raising cancellers too), plus the one cancel() each non-winner gets from succeeded when a canceller "
+            "turns its input into the first success during that cancellation. "
             "Model tied to defer.py by differential runs incl. exhaustive small schedules.",
-    "note": "race liveness partial (race_first_success_partial); trusts Lean kernel, the hand model of "
-            "DeferredList/_cbDeferred/cancel, gatherResults, race and of the part of Deferred they use on their inputs "
-            "(differentially tied)",
+    "note": "trusts Lean kernel, the hand model of DeferredList/_cbDeferred/cancel, gatherResults, race and of the part of "
+            "Deferred they use on their inputs (differentially tied); race theorems complete (race_first_success, "
+            "race_all_fail, race_cancel_unfired_cancels_inputs)",
     "technique": "Lean 4 proof (invariants over histories) + differential tie",
     "design_ref": "DESIGN.md §7 C04",
 }
@@ -363,6 +368,11 @@ def corpus():
         {"kind": "race", "inputs": [u, ["u", "r"], u], "ops": ["F0v1"], "obs": "late"},
         {"kind": "race", "inputs": [u, ["u", "r"], u], "ops": ["C"], "obs": "late"},
         {"kind": "race", "inputs": [["u", "r"], u], "ops": ["C", "F0v1"], "obs": "late"},
+        # the concrete examples next to race_first_success / race_all_fail / race_cancel_unfired_cancels_inputs
+        {"kind": "race", "inputs": [["u", "r"]], "ops": ["C", "F0v1"], "obs": "late"},
+        {"kind": "race", "inputs": [["u", "r"]], "ops": ["C", "F0e1"], "obs": "late"},
+        {"kind": "race", "inputs": [u, ["u", "k7"], u], "ops": ["C"], "obs": "late"},
+        {"kind": "race", "inputs": [u, u, u], "ops": ["F1e1", "F2e2", "F0e0"], "obs": "late"},
     ]
 
 
